@@ -1011,3 +1011,44 @@ def c06_fields(v):
         missing = sorted(fields - read - exempt)
         v.oblige(st, z3.BoolVal(not missing), "C06:lemma:every-field-encoded:" + cls.__name__,
                  "fields of %s not written by its stream_serialize: %s" % (cls.__name__, missing))
+
+
+# ---------------------------------------------------------------------------------------------------- C18 (checkpoints)
+
+@LM.lemma("C18.table", props=["C18"])
+def c18_table(v):
+    """the checkpoint table of the code is the pinned consensus data (no entry changed or removed; entries above the pinned
+    maximum are new data this check cannot vouch for: reported, not a violation), the horizon is its highest height, and
+    entry 0 is the id of the built-in genesis block"""
+    from .ghosts import pinned_checkpoints
+    from skepticoin.cheating import KNOWN_HASHES, MAX_KNOWN_HASH_HEIGHT
+    from skepticoin.humans import computer
+    from skepticoin.genesis import genesis_block_data
+    from skepticoin.datatypes import Block
+    from skepticoin.hash import sha256d
+    st = State()
+    pmax, table = pinned_checkpoints()
+    changed = []
+    for h, want in sorted(table.items()):
+        got = KNOWN_HASHES.get(h)
+        try:
+            ok = got is not None and computer(got) == want
+        except Exception:
+            ok = False
+        if not ok:
+            changed.append(h)
+    v.oblige(st, z3.BoolVal(not changed), "C18:lemma:pinned-entries-unchanged",
+             "checkpoints changed or removed w.r.t. contracts/checkpoints_pinned.json at heights %s" % changed[:10])
+    extra_below = sorted(h for h in KNOWN_HASHES if h not in table and h <= pmax)
+    v.oblige(st, z3.BoolVal(not extra_below), "C18:lemma:no-new-entries-below-pinned-maximum",
+             "entries inserted below the pinned maximum: %s" % extra_below[:10])
+    v.oblige(st, z3.BoolVal(MAX_KNOWN_HASH_HEIGHT == max(KNOWN_HASHES)), "C18:lemma:horizon-is-highest-checkpoint",
+             "MAX_KNOWN_HASH_HEIGHT = %s, max(KNOWN_HASHES) = %s" % (MAX_KNOWN_HASH_HEIGHT, max(KNOWN_HASHES)))
+    v.oblige(st, z3.BoolVal(MAX_KNOWN_HASH_HEIGHT >= pmax), "C18:lemma:horizon-not-lowered",
+             "the horizon (%s) is below the pinned one (%s): pinned checkpoints above it would no longer be enforced" % (MAX_KNOWN_HASH_HEIGHT, pmax))
+    g = Block.deserialize(genesis_block_data)
+    v.oblige(st, z3.BoolVal(computer(KNOWN_HASHES[0]) == g.hash() == sha256d(g.header.serialize()) == table[0]),
+             "C18:lemma:checkpoint-0-is-the-genesis-id", "id of the built-in genesis block, recomputed from its bytes")
+    newer = sorted(h for h in KNOWN_HASHES if h > pmax)
+    if newer:
+        v.notes = getattr(v, 'notes', []) + ["checkpoints above the pinned maximum (not verifiable here): %s" % newer[:10]]
